@@ -4,6 +4,11 @@
   `_ensure_iterable` (lines 646-748).  Import-free and polymorphic: the same definitions run at
   `Rat` / `Float` in the driver and unfold to ordinary Mathlib notation at an ordered field.
 
+  This is the model C04 and C11 use (pixel content of every image).  `_ensure_iterable` / `transform` are modelled
+  twice more — `Imager.ensureIterable` (Model/Imager.lean: which diagrams a `fit` sees; C12, C18) and
+  `Transformers.imagerTransform` (Model/Transformers.lean: container shape of the output only; C18);
+  `Lemmas/ImageModels.lean` proves that the three agree (`ensureIterable_agree`, `transform_agree`).
+
   Inputs taken as given (other properties own them): the pixel-corner meshes `_bpnts`, `_ppnts`
   and `resolution` (C12), the kernel CDF itself (C13).  The kernel enters as the *vectorised*
   function the code calls, `kvec pt bb pp  ≙  kernel(bb, pp, mu=pt, **kernel_params)`; a kernel
